@@ -1106,6 +1106,12 @@ func (c *Ctx) runDeferred(s *State, fr *Frame, d *ssa.Defer, args []Val) {
 			for i, p := range fn.Params {
 				names[i] = p.Name()
 			}
+			// a deferred call is a call: it is logged (called(...)) like any other when it runs
+			s.calllog = append(s.calllog, relFuncName(fn))
+			if s.callArgs == nil {
+				s.callArgs = map[string][][]Val{}
+			}
+			s.callArgs[relFuncName(fn)] = append(s.callArgs[relFuncName(fn)], args)
 			c.applyContract(s, fr, d, fc, relFuncName(fn), names, fc.RecvName, args, fn.Signature, fn.Pkg)
 			return
 		}
